@@ -59,6 +59,12 @@ def gen_ops(rng, kind, init, n):
             elif r < 0.36:
                 # a scale (unit + zero point): the zero point well-formed, not a quantity at all, or of another dimension
                 ops.append(["uscale", rng.choice(["temperature", "length", "time"]), pick_name() or fr("n"), pick_sym() or fr("s"), rng.choice(["ok", "number", "otherdim", "number"])])
+            elif r < 0.42 and init["nm"]:
+                # one identifier the unit already has together with a new one: the new one is still declared
+                o_ = rng.choice(sorted(init["nm"], key=int)); own = init["nm"][o_][0]
+                own_sym = (init["sy"].get(o_) or [None])[0]
+                if rng.random() < 0.5 or own_sym is None: ops.append(["ualias", int(o_), own, fr("s")])
+                else: ops.append(["ualias", int(o_), fr("n"), own_sym])
             elif r < 0.65:
                 ops.append(["ualias", rng.randrange(nobj), pick_name(), pick_sym()])
             elif r < 0.80:
@@ -100,6 +106,9 @@ def gen_ops(rng, kind, init, n):
             if r < 0.45:
                 ops.append(["danon", rng.randrange(nobj), rng.randrange(nobj), rng.choice(["mul", "div", "pow"]),
                             rng.choice([-2, -1, 2, 3, 9])])
+            elif r < 0.55:
+                # a document of a dimension this process has not built, carrying a taken or an unused name
+                ops.append(["djson", [rng.choice([5, 7, 11, -5]), rng.choice([-7, 3, 13]), rng.randint(-3, 3)], rng.choice(names) if (names and rng.random() < 0.6) else fr("n"), rng.choice([None, "X"])])
             elif r < 0.92:
                 ops.append(["dderive", rng.randrange(nobj), pick_name() or fr("n"), rng.choice([None, "X" + str(rng.randint(0, 9))])])
                 if ops[-1][2].startswith("vfn"): names.append(ops[-1][2])
@@ -117,7 +126,7 @@ def model_op(kind, op, rec, known_objs):
     if k == "uresolve":
         if "err" in rec: return "skip"
         return ("New", None, None, None, "false") if rec["created"] else ("Name", rec["obj"], None, None, "false")
-    if k in ("uanon", "danon"):
+    if k in ("uanon", "danon", "djson"):
         if "err" in rec: return None
         return ("New", None, None, None, "false") if rec["created"] else ("Name", rec["obj"], None, None, "false")
     if k == "pdecl":
@@ -176,7 +185,7 @@ def main():
                     if changed or d["count"] != cnt_before:
                         c.violation(f"nonatomic:{kind}:{op[0]}", f"{op} raised {rec['err']} but changed the registries: {json.dumps(d)[:300]}",
                                     {"kind": kind, "ops": ops[:i + 1]})
-                    if rec["err"] != "ValueError" and not (op[0] in ("uanon", "danon")) and not (op[0] == "uscale" and op[4] == "number" and rec["err"] == "TypeError"):
+                    if rec["err"] != "ValueError" and not (op[0] in ("uanon", "danon", "djson")) and not (op[0] == "uscale" and op[4] == "number" and rec["err"] == "TypeError"):
                         c.violation(f"errclass:{kind}:{op[0]}:{rec['err']}", f"{op} raised {rec['err']}: {rec.get('msg')}",
                                     {"kind": kind, "ops": ops[:i + 1]})
                 else:
